@@ -305,7 +305,7 @@ pub fn run(ctx: &Ctx) -> Report {
                 Err(_) => return (bi, 0, bad),
             };
             let list = edits(&b.value);
-            let stride = (list.len() / 400).max(1); // at most ~400 edits per base
+            let stride = (list.len() / if ctx.quick() { 100 } else { 400 }).max(1); // at most ~100 (400) edits per base
             for e in list.iter().step_by(stride) {
                 let (v, f) = match apply_edit(&b.value, &b.n_friendly, e) {
                     Some(x) => x,
